@@ -6577,6 +6577,10 @@ fn eval_expr(
                 // No more expressions to evaluate in this function, we're returning.
                 let stack_frame = env.current_frame_mut();
                 stack_frame.exprs_to_eval.clear();
+                // Leave every block we were inside. This matters at
+                // the top level of a session, where the stack frame
+                // outlives the `return`.
+                stack_frame.bindings.block_bindings.truncate(1);
             } else {
                 env.push_expr_to_eval(
                     ExpressionState::EvaluatedSubexpressions,
